@@ -21,7 +21,7 @@ pub fn gen_conventional(rng: &mut Rng, with_infer: bool) -> Conv {
     let mut cmd = CmdS { name: "prog".into(), ..Default::default() };
     let (mut opts, mut flags, mut pos) = (vec![], vec![], vec![]);
     let shorts = ['a', 'b', 'c', 'd', 'e', 'f'];
-    let longs = ["alpha", "beta", "gamma", "delta", "epsilon", "zeta"];
+    let longs = ["alpha", "alpine", "verbose", "hello", "gamma", "gam"];
     let n_opt = 1 + rng.below(3);
     let n_flag = 1 + rng.below(3);
     for i in 0..n_opt + n_flag {
